@@ -26,7 +26,38 @@ Theorem C17_no_calibration_no_definition (V S : Type) (ser : V -> S) (deser : S 
   sections_of V S deser d = None /\ matching_of V S deser d = None /\ c_trans_att V S d = None.
 Proof. intros Hl. exact (no_calibration_no_definition V S ser deser file ops {| a_sections := None; a_matching := None; c_trans_att := None |} eq_refl eq_refl eq_refl Hl). Qed.
 
+(* two histories with the same most recent calibration report the same definitions: inserting or deleting Monte Carlo
+   runs and store/load cycles anywhere, or earlier calibrations, changes nothing that is reported *)
+Theorem C17_only_the_last_calibration_matters (V S : Type) (ser : V -> S) (deser : S -> V) (file : S -> S) :
+  (forall v, deser (ser v) = v) -> (forall s, file s = s) ->
+  forall ops1 ops2, last_calibrate V ops1 None = last_calibrate V ops2 None ->
+    let d0 := {| a_sections := None; a_matching := None; c_trans_att := None |} in
+    let d1 := run V S ser deser file d0 ops1 in let d2 := run V S ser deser file d0 ops2 in
+    sections_of V S deser d1 = sections_of V S deser d2 /\ matching_of V S deser d1 = matching_of V S deser d2 /\
+    c_trans_att V S d1 = c_trans_att V S d2.
+Proof.
+  intros Hs Hf ops1 ops2 E d0 d1 d2. destruct (last_calibrate V ops2 None) as [[[s m] t]|] eqn:E2.
+  - destruct (C17_definitions_travel V S ser deser file Hs Hf ops1 s m t E) as (A1 & A2 & A3).
+    destruct (C17_definitions_travel V S ser deser file Hs Hf ops2 s m t E2) as (B1 & B2 & B3).
+    subst d1 d2 d0. rewrite A1, A2, A3, B1, B2, B3. auto.
+  - destruct (C17_no_calibration_no_definition V S ser deser file ops1 E) as (A1 & A2 & A3).
+    destruct (C17_no_calibration_no_definition V S ser deser file ops2 E2) as (B1 & B2 & B3).
+    subst d1 d2 d0. rewrite A1, A2, A3, B1, B2, B3. auto.
+Qed.
+
+(* the hypotheses of C17_definitions_travel are necessary, not merely convenient: a serialiser that loses a value, or a
+   file format that alters its string, is visible after one calibration (and one store/load cycle) *)
+Theorem C17_lossy_serialiser_is_visible (V S : Type) (ser : V -> S) (deser : S -> V) (file : S -> S) v m t :
+  deser (ser v) <> v ->
+  sections_of V S deser (run V S ser deser file {| a_sections := None; a_matching := None; c_trans_att := None |} [Calibrate V v m t]) <> Some v.
+Proof. exact (lossy_serialiser_is_visible V S ser deser file v m t). Qed.
+Theorem C17_lossy_file_is_visible (V S : Type) (ser : V -> S) (deser : S -> V) (file : S -> S) v m t :
+  deser (file (ser v)) <> v ->
+  sections_of V S deser (run V S ser deser file {| a_sections := None; a_matching := None; c_trans_att := None |} [Calibrate V v m t; StoreLoad V]) <> Some v.
+Proof. exact (lossy_file_is_visible V S ser deser file v m t). Qed.
+
 Example C17_ex : last_calibrate nat [Calibrate nat 1 2 3; MonteCarlo nat; StoreLoad nat; Calibrate nat 4 5 6; StoreLoad nat] None = Some (4, 5, 6).
 Proof. reflexivity. Qed.
 
 Print Assumptions C17_definitions_travel. Print Assumptions C17_no_calibration_no_definition.
+Print Assumptions C17_only_the_last_calibration_matters. Print Assumptions C17_lossy_serialiser_is_visible. Print Assumptions C17_lossy_file_is_visible.
